@@ -57,6 +57,7 @@ def _gen_one(args):
         info.update(status="under contract", paths=fc.npaths, exits=fc.exits,
                     source_hash=fc.source_hash,
                     assumptions=sorted(eng.used_assumptions),
+                    inconsistent=eng.inconsistent[:10],
                     gen_s=round(time.time() - t0, 2))
     except Unsupported as e:
         info["status"] = f"UNDECIDED: {e}"
@@ -123,7 +124,8 @@ def main():
     for i in infos:
         if i.get("status") == "under contract":
             print(f"[gen] {i['function']}: paths={i['paths']} exits={i['exits']} "
-                  f"{i['gen_s']}s")
+                  f"{i['gen_s']}s" + (f" INCONSISTENT {i['inconsistent']}"
+                                      if i.get("inconsistent") else ""))
         else:
             print(f"[{i['status'][:9]}] {i['function']}: "
                   f"{i.get('undecided') or i.get('error')}")
